@@ -130,6 +130,11 @@ class FakeWS:
         self.open = True
 
     def sendMessage(self, payload, isBinary):
+        if getattr(self, "closing", False):
+            # autobahn: WebSocketProtocol.sendMessage() in state CLOSING/CLOSED (closing handshake begun or transport going down, onClose not yet
+            # delivered) raises Disconnected("Attempt to send on a closed protocol")
+            from autobahn.exception import Disconnected
+            raise Disconnected("Attempt to send on a closed protocol")
         d = bytes_to_dict(payload)
         self.client.sent.append(d)
         self.client.world.server.uplink(self.client, d)
